@@ -4,7 +4,7 @@ from harness.props import base
 
 PROP = {
     "id": "C04",
-    "quick_n": 240,
+    "quick_n": 360,
     "thorough_n": 6000,
     "rule": "one program = tree spec (every primitive in every child/flow position, sparse "
             "containers with non-Count contents, named and unnamed quantities), a reachable state "
@@ -40,7 +40,7 @@ def gen_one(r, i, tier):
         a = push(("copy", a))
     m["a"] = a
     ops.append(("tojson", a)); m["ja"] = len(ops) - 1
-    R = push(("jsonrt", a)); m["R"] = R; m["rt"] = len(ops) - 1
+    R = push(("jsonrt", a, r.choice(["dict", "dict", "string", "file"]))); m["R"] = R; m["rt"] = len(ops) - 1
     ops.append(("tojson", R)); m["jR"] = len(ops) - 1
     pairs = []
     f = r.choice([0.5, 2.0, 3.0])
